@@ -259,7 +259,8 @@ def main():
         'wall_s': round(wall, 2),
         'violations': len(violations),
     }
-    write_evidence(pid, ev)
+    if not args.no_lean:            # (a debugging run without the Lean side proves nothing: no evidence file)
+        write_evidence(pid, ev)
     for l in known_lines:
         print(l)
     print("%s tier=%s seed=%d: theorems %d/%d, histories %d (non-trivial %d), steps %d, %.1fs" % (
